@@ -126,6 +126,18 @@ def step_catalog() -> dict[str, dict[str, Any]]:
         for k in (0, 1, 3):
             add(f"close_after{k}_{h}", "main", {"m": f"p{h}_ok", "args": {}, "take": k, "end": "close"})
             add(f"cancel_after{k}_{h}", "main", {"m": f"p{h}_ok", "args": {}, "take": k, "end": "cancel"})
+        # both terminal operations on one session, in either order (a `with` block exit after an explicit cancel())
+        for k in (0, 1, 2):
+            for seq in ("cancel+close", "close+cancel", "close+close", "cancel+cancel"):
+                add(f"{seq.replace('+', '_')}_after{k}_{h}", "main", {"m": f"p{h}_ok", "args": {}, "take": k, "end": seq})
+        for seq in ("cancel+close", "close+cancel", "close+close"):
+            add(f"exchange_{seq.replace('+', '_')}_{h}", "main", {"m": f"x{h}_ok", "args": {}, "inputs": [{"i": [1]}], "end": seq})
+            add(f"exchange_{seq.replace('+', '_')}_noinput_{h}", "main", {"m": f"x{h}_ok", "args": {}, "inputs": [], "end": seq})
+        # an exchange input whose field set differs from the stream's (first turn: refused by the server; later turn:
+        # the client's own input stream cannot carry it): a mid-stream error either way
+        bad = {"__cols__": {"i": "int64", "zz": "float64"}, "i": [9], "zz": [1.5]}
+        add(f"exchange_bad_input_first_{h}", "main", {"m": f"x{h}_ok", "args": {}, "inputs": [bad, {"i": [2]}]})
+        add(f"exchange_bad_input_later_{h}", "main", {"m": f"x{h}_ok", "args": {}, "inputs": [{"i": [1]}, bad, {"i": [3]}]})
         add(f"abandon_after1_{h}", "main", {"m": f"p{h}_ok", "args": {}, "take": 1, "end": "abandon"}, judged=False)
         add(f"exchange_cancel_{h}", "main", {"m": f"x{h}_ok", "args": {}, "inputs": [{"i": [1]}], "end": "cancel"})
         for k in (0, 1, 2, 3):
